@@ -493,20 +493,22 @@ def optimised_child_sub(prop, subnames, flags=("-O",), name="under-python-O", ex
     one whole sub-check in the child; the child's first finding is relayed. Replays re-run the child."""
     import subprocess
 
+    how = " ".join(flags) or " ".join(f"{k}={v}" for k, v in (extra_env or {}).items())
+
     def run(ctx, case):
         cmd = [sys.executable, *flags, "-X", "faulthandler", "-m", "vf.main", prop, "--tier", "quick", "--only", case["sub"], "--workers", "4"]
         p = subprocess.run(cmd, cwd=env.VERIF_DIR, env=dict(os.environ, VERIF_NESTED="1", VERIF_FAST_FAIL="1", **(extra_env or {})), capture_output=True, text=True, timeout=1200)
         keys = [line.strip() for line in p.stdout.splitlines() if line.startswith("  " + prop + "/")]
         if p.returncode == 1 and keys:
             k, _, msg = keys[0].partition(": ")
-            ctx.fail(f"{' '.join(flags)}/" + k.split("/", 2)[2], f"in an interpreter started with {' '.join(flags)} ({what}): " + msg)
+            ctx.fail(f"{how}/" + k.split("/", 2)[2], f"in an interpreter started with {how} ({what}): " + msg)
         elif p.returncode != 0:
             raise env.HarnessError(f"child interpreter ended with {p.returncode}: {(p.stdout + p.stderr)[-800:]}")
         summary = next((line for line in p.stdout.splitlines() if line.startswith("[" + prop + "]")), "")
-        ctx.case(case, True, labels=["python " + " ".join(flags), summary[:90]])
+        ctx.case(case, True, labels=["python " + how, summary[:90]])
 
     return Sub(name, run, kind="enum", enumerate=lambda tier: iter([{"sub": s} for s in subnames]), shards=(min(4, len(subnames)), min(4, len(subnames))),
-               rule=f"the sub-checks {', '.join(subnames)} once more in a child interpreter started with {' '.join(flags)} ({what}); one case = one whole sub-check in the child",
+               rule=f"the sub-checks {', '.join(subnames)} once more in a child interpreter started with {how} ({what}); one case = one whole sub-check in the child",
                nontrivial_required=False)
 
 
